@@ -8,7 +8,8 @@
 (* of the operations and results only.                                     *)
 (*                                                                         *)
 (* Events:                                                                 *)
-(*   {"op":"new","kinds":[..],"caps":[..],"hooks":b,"keys":[..]}  boundary *)
+(*   {"op":"new","kinds":[..],"caps":[..],"budgets":[..],"policies":[..],   *)
+(*    "sizes":{name:bytes},"hooks":b,"keys":[..]}              run boundary *)
 (*   {"op":..., args, "seq":n, "res":s, ("rs":[..]), ("obs":[{k:v},..])}    *)
 (*   {"op":"hang","during":{op..},..}   the call never returned (watchdog) *)
 (***************************************************************************)
@@ -26,13 +27,16 @@ VARIABLES l,      \* position in Rec
           viol, devs
 
 SetOfSeq(q) == {q[i] : i \in 1..Len(q)}
-C0 == [kinds |-> <<"mem">>, caps |-> <<1>>, hooks |-> FALSE]
+C0 == [kinds |-> <<"mem">>, caps |-> <<1>>, hooks |-> FALSE, budget |-> <<0>>, policy |-> <<"lru">>, sizes |-> [v1 |-> 1]]
 S0(c, keys) == [i \in 1..Len(c.kinds) |-> [k \in keys |-> None]]
 
 \* The machine of MultiLayer.tla part 2 is not used here: its variables are parked in their initial
 \* state (the cfg substitutes TKinds / TCaps for Kinds / Caps and gives the other constants dummies).
 TKinds == <<"mem">>
 TCaps  == <<1>>
+TBudgets == <<0>>
+TPolicies == <<"lru">>
+TSizes == [v1 |-> 1]
 
 TInit == /\ MInit
          /\ l = 1 /\ C = C0 /\ S = S0(C0, {}) /\ gh = G0({}) /\ seq = 0 /\ ended = FALSE
@@ -45,7 +49,8 @@ Step ==
   /\ l <= Len(Rec)
   /\ LET e == Rec[l] IN
      IF e.op = "new" THEN
-        LET c == [kinds |-> e.kinds, caps |-> e.caps, hooks |-> e.hooks] IN
+        LET c == [kinds |-> e.kinds, caps |-> e.caps, hooks |-> e.hooks,
+                  budget |-> e.budgets, policy |-> e.policies, sizes |-> e.sizes] IN
         /\ C' = c /\ S' = S0(c, SetOfSeq(e.keys)) /\ gh' = G0(SetOfSeq(e.keys)) /\ seq' = 0 /\ ended' = FALSE
         /\ UNCHANGED <<viol, devs>>
      ELSE IF e.op = "hang" THEN
